@@ -242,6 +242,10 @@ func jobC11(c *rt.Ctx) {
 			var dst, in, base [32]byte
 			copy(in[:], s)
 			copy(base[:], pt)
+			// the output array is reused by callers: it holds the previous result, not zeros
+			for i := range dst {
+				dst[i] = 0xAA
+			}
 			ScalarMult(&dst, &in, &base)
 			c.Step(2)
 			c.Distinct(fmt.Sprintf("gen %d %d", pi, si), true)
